@@ -12,6 +12,7 @@ import (
 	"sort"
 	"strings"
 	"testing"
+	"time"
 
 	"verif/ref"
 	"verif/sim"
@@ -20,6 +21,7 @@ import (
 func init() {
 	vfRegistry["C14/sio"] = func(c *sim.Ctx, t *testing.T) { runC14Sio(c, t, false) }
 	vfRegistry["C08/sio"] = func(c *sim.Ctx, t *testing.T) { runC14Sio(c, t, true) }
+	vfRegistry["C14/sio-loop"] = runC14SioLoop
 }
 
 func runC14Sio(c *sim.Ctx, t *testing.T, failing bool) {
@@ -160,4 +162,133 @@ func vfShort(txt string) string {
 		}
 		txt = txt[:j] + `"inline":"<recorder spec>"` + txt[j+k+len(`"type":"message"}}}}`):]
 	}
+}
+
+// runC14SioLoop: the same counting oracle, but through the crew's own Loop (in/out
+// channels, a consumer) under the serial scheduler - and with messages that make a
+// recipient compute a state that cannot be encoded, so that ProcessMsg fails at its
+// very end, after every addressed machine has been walked.  Only delivery counts are
+// asserted here (a failed ProcessMsg reports nothing).
+func runC14SioLoop(c *sim.Ctx, t *testing.T) {
+	nm := 1 + c.Intn(4, "nmachines")
+	var mids []string
+	present := map[string]bool{"timers": true, "captain": true}
+	recorders := map[string]bool{}
+	for i := 0; i < nm; i++ {
+		mid := fmt.Sprintf("r%d", i)
+		mids = append(mids, mid)
+		present[mid] = true
+		recorders[mid] = true
+	}
+	g := &vfGen{c: c, mids: mids}
+	nmsgs := 1 + c.Intn(4, "nmsgs")
+	var msgs []map[string]interface{}
+	want := map[string][]string{}
+	poisoned := map[string]bool{}
+	for k := 0; k < nmsgs; k++ {
+		m := g.message(2)
+		if c.Chance(1, 4, "nan") {
+			// only on a submitted message: within a cascade the order of one round's
+			// messages is unspecified, and with it which of them a poisoned machine misses
+			m["nan"] = map[string]interface{}{mids[c.Intn(len(mids), "nanmid")]: true}
+		}
+		msgs = append(msgs, m)
+		md := vfPredict(m, present, recorders, poisoned)
+		for mid, ids := range md.seen {
+			want[mid] = append(want[mid], ids...)
+		}
+	}
+	got := map[string][]string{}
+	nresults := 0
+	sim.Bubble(c, t, func(s *sim.Sched) {
+		s.Horizon = time.Minute
+		s.MaxSteps = 20000
+		ctx, cancel := context.WithCancel(context.Background())
+		crew, cp, err := vfNewCrew(ctx)
+		if err != nil {
+			c.Infra = "NewCrew: " + err.Error()
+			cancel()
+			return
+		}
+		for _, mid := range mids {
+			if err := crew.SetMachine(ctx, mid, vfSpecSource(), nil); err != nil {
+				c.Infra = "SetMachine: " + err.Error()
+				cancel()
+				return
+			}
+		}
+		s.Go("loop", func(tk *sim.Task) { crew.Loop(ctx) })
+		s.Go("consumer", func(tk *sim.Task) {
+			for {
+				sim.Yield("h#consume")
+				select {
+				case <-ctx.Done():
+					return
+				case <-cp.out:
+					sim.Yield("h#consumed")
+					nresults++
+				}
+			}
+		})
+		s.Go("submitter", func(tk *sim.Task) {
+			for _, m := range msgs {
+				sim.Yield("h#send")
+				select {
+				case <-ctx.Done():
+					return
+				case cp.in <- vfJSONCopy(m):
+				}
+				sim.Yield("h#sent")
+			}
+			// one last message: when the loop takes it, everything before has been processed
+			sim.Yield("h#send")
+			select {
+			case <-ctx.Done():
+			case cp.in <- map[string]interface{}{"to": "nobody", "id": "flush"}:
+			}
+			sim.Yield("h#sent")
+		})
+		s.Run()
+		cancel()
+		s.Drain(800)
+		if !c.Sched.Exhausted {
+			for _, mid := range mids {
+				got[mid] = vfLogIds(crew.Machines[mid])
+			}
+		}
+	})
+	if c.Infra != "" {
+		return
+	}
+	if c.Sched.Exhausted || len(c.Sched.Stuck) > 0 {
+		c.Count("budget_exhausted_unfinished")
+		c.Trivial = true
+		return
+	}
+	desc := fmt.Sprintf("submitted %s through the crew's Loop to %v", vfShort(ref.Canon(msgs)), mids)
+	for _, mid := range mids {
+		gs, ws := append([]string{}, got[mid]...), append([]string{}, want[mid]...)
+		sort.Strings(gs)
+		sort.Strings(ws)
+		if vfJoin(gs) != vfJoin(ws) {
+			kind := "miss"
+			cnt := map[string]int{}
+			for _, x := range gs {
+				cnt[x]++
+			}
+			for _, n := range cnt {
+				if n > 1 {
+					kind = "dup"
+				}
+			}
+			c.Violate("route:sio-loop:"+kind, "%s: machine %s was presented [%s], addressed to it were [%s]", desc, mid, vfJoin(got[mid]), vfJoin(want[mid]))
+			return
+		}
+		c.Add("deliveries", len(gs))
+	}
+	c.Add("results", nresults)
+	c.Add("steps_with_choice", c.Sched.Switches)
+	c.Path = fmt.Sprintf("%d|%d|%016x", nm, g.n, c.Sched.Hash)
+	c.Trivial = g.n < 2
+	c.Sample = map[string]interface{}{"machines": mids, "messages": vfShort(ref.Canon(msgs))}
 }
